@@ -25,10 +25,20 @@ ASSUMPTIONS = [
 ]
 
 
+def phase_basis(T, n, dt='complex128'):
+    """diag(1, i, (3+4i)/5, (-4+3i)/5): a unitary basis whose first vector is real (complex Hermitian operators with a real start vector)"""
+    from fractions import Fraction as F_
+    ph = [(F_(1), F_(0)), (F_(0), F_(1)), (F_(3, 5), F_(4, 5)), (F_(-4, 5), F_(3, 5)), (F_(0), F_(-1))][:n]
+    z = K.S(T, 0)
+    return K.mat(T, [[K.cst(T, *ph[i]) if i == j else z for j in range(n)] for i in range(n)], dt)
+
+
 def _setup(T, n, variant, complex_, zero_at, cayley2=False):
     dt = 'complex128' if complex_ else 'float64'
     if cayley2 and n == 2 and not complex_:
         Q = K.cayley2_symbolic(T, "t", flip=bool(variant), dtype=dt)
+    elif variant == -2:
+        Q = phase_basis(T, n, dt)
     else:
         Q = K.basis(T, n, variant, complex_, dt)
     al = [T.var(f"al{i}") for i in range(n)]
@@ -66,8 +76,12 @@ def _check_factorisation(T, tag, Qd, Td, Q, Tm, A, n, max_iters, zero_at):
     return k
 
 
-def case_lanczos(T, n, max_iters, variant=0, complex_=False, zero_at=None, tol="sym", cayley2=False, via="function"):
+def case_lanczos(T, n, max_iters, variant=0, complex_=False, zero_at=None, tol="sym", cayley2=False, via="function", real_start=False):
     dt, Q, al, be, s, Tm, A, v = _setup(T, n, variant, complex_, zero_at, cayley2)
+    if real_start:
+        # complex Hermitian operator (phase-diagonal basis), start vector s e_1 handed over with a real dtype
+        assert variant == -2 and complex_
+        v = K.mat(T, [[s if i == 0 else K.S(T, 0) for i in range(n)]], 'float64')[0]
     tolv = T.scalar("tol", 'float64', positive=True, form='py') if tol == "sym" else float(tol)
     if tol == "sym":
         T.assume(tolv < 1)
@@ -78,6 +92,9 @@ def case_lanczos(T, n, max_iters, variant=0, complex_=False, zero_at=None, tol="
         Qc, Tc, info = cola.linalg.Lanczos(start_vector=v, max_iters=max_iters, tol=tolv)(Aop)
     Qd, Td = Qc.to_dense(), Tc.to_dense()
     k = _check_factorisation(T, "lanczos", Qd, Td, Q, Tm, A, n, max_iters, zero_at)
+    if tol != "sym" and float(tol) == 0.0 and zero_at is None:
+        # with tol = 0 nothing but an exhausted Krylov space (beta_j = 0) or the iteration cap ends the run
+        T.check("lanczos: tol = 0 runs to min(max_iters, n) columns", k == min(max_iters, n), f"{k} columns, max_iters={max_iters}, n={n}")
     T.check("Q-is-operator", isinstance(Qc, cola.ops.LinearOperator) and isinstance(Tc, cola.ops.Tridiagonal))
     T.check("info-iterations", info.get("iterations") == k + 1, f"iterations={info.get('iterations')} columns={k}")
 
@@ -189,6 +206,10 @@ def case_batched(T, n, max_iters, variant=0, mode="scales"):
         Tm = K.tridiag(T, al, be, n, dt)
         A = Q @ Tm @ Q.T
         s, s2 = T.var("s", positive=True), T.var("s2", positive=True)
+        if variant < 0:
+            for x in [s, s2] + [b_ for j_, b_ in enumerate(be) if j_ != n1 - 1]:
+                T.assume(x >= 1e-2)
+                T.assume(x <= 1e2)
         V = _stack_cols(T, [s * Q[:, 0], s2 * Q[:, n1]], dt)
         exp = [(Q[:, :n1], Tm[:n1, :n1]), (Q[:, n1:], Tm[n1:, n1:])]
         stop = [n1, n2]
@@ -196,6 +217,10 @@ def case_batched(T, n, max_iters, variant=0, mode="scales"):
     Qarr = Qb.A  # (batch, n, k)
     k = Qarr.shape[-1]
     T.check("batched:shapes", Qarr.shape[0] == 2 and Qarr.shape[1] == n and k <= min(max_iters, n), f"{Qarr.shape}")
+    if mode == "blocks" and variant < 0:
+        # the batch runs until the member with the largest Krylov space is done (identity basis: breakdowns are exact in floats too; the
+        # assumed scales keep every beta_j / beta_0 far above tol)
+        T.check("batched:columns == Krylov dimension of the longest member", k == min(max_iters, max(stop)), f"{k} columns, Krylov dimensions {stop}")
     for b in range(2):
         Qe, Te = exp[b]
         kb = min(k, Qe.shape[1])
@@ -256,6 +281,9 @@ def cases(tier, seed):
             out.append((f"complex:n{n}m{m}", case_lanczos, dict(n=n, max_iters=m, complex_=True)))
         if n > 2:
             out.append((f"complex-exhaust:n{n}", case_lanczos, dict(n=n, max_iters=n, complex_=True, zero_at=n - 2, tol=1e-7)))
+    for n, m in ((2, 2), (3, 2), (3, 3), (4, 4)):
+        out.append((f"complex-operator-real-start:n{n}m{m}", case_lanczos, dict(n=n, max_iters=m, variant=-2, complex_=True, real_start=True, tol=1e-7)))
+        out.append((f"complex-operator-real-start-class:n{n}m{m}", case_lanczos, dict(n=n, max_iters=m, variant=-2, complex_=True, real_start=True, tol=1e-7, via="class")))
     for n, m in ((2, 2), (3, 2), (3, 3)):
         out.append((f"real-operator-complex-start:n{n}m{m}", case_real_operator_complex_start, dict(n=n, max_iters=m)))
     for flip in (0, 1):
